@@ -268,6 +268,19 @@ func TestC10(t *testing.T) {
 	runWitnesses(t, "C10")
 	cliCases(t, "C10", "fragment")
 
+	// Cues that hold no multiple of a tiny period although they lie hours from the origin: nothing to cut, whatever
+	// the ratio of the list's duration to the period
+	sub(t, "far-instants", func(t *testing.T) {
+		if cfgShard != 0 {
+			return
+		}
+		for _, f := range []int64{1, 2, 7} {
+			c := c10Case{F: f, Cues: []cueSpec{{S: 12 * nsHour, E: 12 * nsHour, T: "a"}, {S: 12*nsHour + 1, E: 12*nsHour + 1, T: "b"}, {S: 99 * nsHour, E: 99*nsHour + f, T: "c"}}}
+			ev.CaseH(true, mix(strHash("farinstant"), uint64(f)), "tiny-period-far-from-the-origin")
+			verdict(t, "C10", "c10", c, checkC10)
+		}
+	})
+
 	// One cue spanning tens of thousands of periods next to a short one (a station logo on screen for hours, cut for
 	// streaming segments): around every power of two up to 2^17 pieces.
 	sub(t, "long-cue", func(t *testing.T) {
